@@ -39,8 +39,9 @@ def run(ctx: core.Ctx) -> None:
                 'Non-trivial = tracing on and at least one pass.')
     core.sany('TracerMC')
     n_all = 0
-    for name, maxi in (('core', 2 if quick else 3), ('vec', 2), ('hook', 2)):
-        results = core.run_sharded('TracerMC', cfg_text(name, maxi), core.NCPU, tag=f'C17-{name}', extra=['-coverage', '1'])
+    for name, maxi in (('core', 2 if quick else 3), ('vec', 2), ('hook', 2), ('deep', 2000 if quick else 4000)):
+        results = core.run_sharded('TracerMC', cfg_text(name, maxi), core.NCPU if name != 'deep' else 1, tag=f'C17-{name}',
+                                   extra=['-coverage', '1'] if name != 'deep' else [], heap='2g' if name != 'deep' else '8g')
         recs, cov = [], {}
         for r in results:
             core.require_ok(r, f'Tracer slice {name}')
@@ -50,9 +51,10 @@ def run(ctx: core.Ctx) -> None:
         agg = core.TLCResult(rc=0, generated=sum(r.generated for r in results), distinct=sum(r.distinct for r in results),
                              depth=max(r.depth for r in results), coverage={a: cov.get(a, [0, 0]) for a in ACTIONS}, wall=max(r.wall for r in results))
         ctx.add_tlc(agg, f'Tracer slice {name} exhaustive + refinement of Solver (16 shards)', constants=f'MaxI={maxi} {sc.SLICES[name]}')
-        core.require_coverage(agg, ACTIONS, f'Tracer slice {name}')
-        vs = variants(quick)
-        payloads = [{'records': ch, 'variants': vs, 'all_variants': (name == 'hook'), 'seed': ctx.seed} for ch in core.chunks(recs, core.NCPU * 2)]
+        if name != 'deep':
+            core.require_coverage(agg, ACTIONS, f'Tracer slice {name}')
+        vs = variants(quick) if name != 'deep' else [v for v in variants(quick) if v['repeat'] == 'same' and v['entry'] != 'solve_period']
+        payloads = [{'records': ch, 'variants': vs, 'all_variants': (name in ('hook', 'deep')), 'seed': ctx.seed} for ch in core.chunks(recs, core.NCPU * 2)]
         outs = core.run_workers('harness.replay_tracer', payloads)
         ctx.evaluations += sum(o['n'] for o in outs)
         ctx.nontrivial += sum(o['nontrivial'] for o in outs)
